@@ -29,6 +29,16 @@ CHECKS["C17"] = ("MultiMap.tla, TraceMultiMap.tla",
     "Trusted: TLC, the driver's abstraction function (multi_items / items / iteration order), urllib's parse_qsl/urlencode.",
     "DESIGN.md 5 C17")
 
+CHECKS["C09"] = ("Mount.tla, Hosts.tla",
+    "TLC exhaustive model check of a request walking a tree of mount tables (Preserved, Boundary, FirstMatch, "
+    "NotFoundOnlyIfNone, DefaultEntry) and of the host table search (FirstFullMatch); every behaviour replayed on real "
+    "nested Subpaths / Hosts on WSGI and ASGI",
+    "Mount tables with prefixes that are prefixes of each other in every order, nesting depth 3, all paths over a symbol "
+    "alphabet up to length 4/5, two initial roots; host tables of optional/literal token patterns x host values. The model "
+    "gives the unique outcome the statement prescribes; any difference on the implementation is a violation.",
+    "Trusted: TLC, environ/scope construction in harness/servers.py, ASCII concretisation of prefix symbols.",
+    "DESIGN.md 5 C09")
+
 NOT_YET = {}
 
 ALL = ["C%02d" % i for i in range(1, 21)]
